@@ -3,6 +3,11 @@
 import json, subprocess
 ALL=[f"C{i:02d}" for i in range(1,20)]
 CLAIMED={
+ "C05": dict(
+   text="Reclaim audit (marked in use == reachable from the root; in-memory allocators == on-disk bitmaps; free counts return to the fresh values after delete-everything) in every state of a breadth-first search over a build/delete alphabet with background frees run to completion under the scheduler; on every crash image of histories that free a 530-block file in several background transactions, after the property's touch/reuse procedure; and at the end of every schedule of the concurrent-free harnesses.",
+   note="Trusted: fsck decoders; scheduler-based waiting for shrinkers (no sleeping). Bounds: depth, alphabet, 2200/3000-block disks, image cap per history in quick (exhaustive:false), deviation bound.",
+   technique="explicit-state search + crash-image enumeration + schedule exploration of the implementation with a reachability/bitmap audit as invariant",
+   ref="DESIGN.md 4 (C05)"),
  "C04": dict(
    text="An independent fsck (own decoders, log-aware) is the only oracle of three exhaustive explorations: every state of a breadth-first search over a namespace/data alphabet extended with directory renames, REMOVE/SETATTR on directories and background frees; the final state of every schedule of the C03 harnesses within the bound; the logical disk of every crash image of the C01 crash histories.",
    note="Trusted: fsck's own reading of the on-disk format (little-endian inode/dirent layout, circular log header). Bounds: as C02/C03/C01 at the tier's depths; capped loss enumeration reported as exhaustive:false.",
